@@ -369,6 +369,9 @@ Result explore(const std::function<void()> &body, const Options &opt)
         }
         bool counted = level >= 2 || opt.shard == 0;
         std::vector<int> choices = x.choices();
+        // a child that died (signal, sanitizer abort) could not report its trace: it followed the prefix and the default choice afterwards, so the
+        // prefix IS its schedule (replayed below like every other violation)
+        if (x.status.compare(0, 6, "crash:") == 0 && x.trace.empty()) choices = prefix;
         if (counted) {
             R.executions++;
             R.steps += (long long)x.trace.size();
